@@ -265,7 +265,26 @@ def signals(p, env, entry, async_):
         ("attr-then-item-AttributeError", "[{{ po.nope }}]|{{ po.nope is defined }}", None, None, "[]|False"),
         ("item-then-attr-AttributeError", "[{{ po['nope'] }}]", None, None, "[]"),
         ("call-StopIteration", "[{{ f() }}]", "call", StopIteration(), "[]"),
+        # the same signals through the attribute-path getter of the filters (dotted paths with integer parts)
+        ("attrpath-int-IndexError", "{{ rows|map(attribute='t.0')|map('default', 'U')|list }}|{{ rows|map(attribute='t.0', default='D')|list }}", "rows", None, "['a', 'U']|['a', 'D']"),
+        ("attrpath-int-KeyError", "{{ maps|map(attribute='m.1', default='D')|list }}|{{ maps|selectattr('m.1')|list|length }}", "rows", None, "['x', 'D']|1"),
+        ("attrpath-int-TypeError", "{{ objs2|map(attribute=0, default='D')|list }}|{{ objs2|map(attribute='v.0', default='D')|list }}", "rows", None, "['D', 'D']|['D', 'D']"),
+        ("attrpath-sum-join", "{{ rows|sum(attribute='n.0', start=0) }}|{{ rows|join(',', attribute='t.0') }}", "rows", None, "3|a,"),
+        # StopIteration from a C-implemented callable is the same signal as from a Python one
+        ("builtin-StopIteration", "[{{ nxt(done) }}]{% for i in [1] %}[{{ nxt(done) }}]{% endfor %}{% block b %}[{{ nxt(done) }}]{% endblock %}[{{ done.__next__() }}]", "rows", None, "[][][][]"),
     ]
+
+    class Row:
+        def __init__(self, t, n):
+            self.t, self.n = t, n
+
+    class V:
+        v = 5
+
+    def rows_data():
+        return {"rows": [Row(["a"], [1]), Row([], [2])], "maps": [{"m": {1: "x"}}, {"m": {}}], "objs2": [V(), V()],
+                "nxt": next, "done": iter(())}
+
     class Proxy:
         """a proxy-style object: unknown attributes AND unknown items are signalled with AttributeError"""
 
@@ -276,16 +295,21 @@ def signals(p, env, entry, async_):
             raise AttributeError(key)
 
     for label, src, kind, exc, expected in cases:
-        if kind is None:
+        if kind is None or kind == "rows":
             t = env.from_string(src)
             p.evals += 1
+            d0 = {"po": Proxy()} if kind is None else rows_data()
             try:
-                got = t.render(po=Proxy()) if not async_ else e4.run(t.render_async(po=Proxy()))
+                got = t.render(**d0) if not async_ else e4.run(t.render_async(**d0))
             except Exception as e:  # noqa: BLE001
                 got = ("exc", type(e).__name__)
+            if isinstance(got, str):
+                import html
+
+                got = html.unescape(got)  # (the environment autoescapes; the expectations are written unescaped)
             p.sig(("signal", label, async_, str(got)))
             if got != expected:
-                p.violation(f"C38/signal/{label}", {"msg": f"{src!r} on an object whose __getattr__/__getitem__ raise AttributeError: got {got!r}, documented outcome {expected!r}",
+                p.violation(f"C38/signal/{label}", {"msg": f"{src!r} on data whose lookups signal 'missing' (AttributeError / LookupError / StopIteration): got {got!r}, documented outcome {expected!r}",
                                                    "script": "print(%r)\n" % src})
             continue
         plan0 = e5.Plan(0)
